@@ -650,6 +650,7 @@ def do_restart(w, fmts):
             c15("write-raised", "%s:%s" % (_exc_sig(e), shape), "-", str(e)[:200], facts)
             w.stats["restart_failed"] += 1
             return False
+        ev_read = len(ISSUED)
         try:
             g2 = _read(blob, fmt)
         except Exception as e:
@@ -680,7 +681,10 @@ def do_restart(w, fmts):
         w.ghost = w.g
         w.ghost_digest = jdigest(fa)
         w.g = g2
-        w.issued = set()
+        # names handed out while reading back belong to the new incarnation (and only
+        # those: a read that failed half-way used a generator that is thrown away --
+        # false `name-reused` met by the multi-seed sweep, seed 700)
+        w.issued = set(name for _m, _k, name in ISSUED[ev_read:])
         w.after_restart = True
         w.pristine = False
         if lossy:
@@ -768,9 +772,6 @@ def apply_op(w, op, conf):
         if outcome is None:
             w.stats["probes"] += 1
     if kind in ("restart", "restart2"):
-        # names handed out while reading back belong to the new incarnation
-        for _m, _k, name in ISSUED[ev0:]:
-            w.issued.add(name)
         w.stats["names_observed"] += len(ISSUED) - ev0
     else:
         check_names_after_op(w, ev0, present_before, kind, vars_before)
